@@ -116,7 +116,13 @@ impl Crypto {
         let duration = Duration::from_secs_f32(SPEED_TEST_TIME);
         let mut speeds = Vec::new();
         for algo in allowed_algos {
+            #[cfg(not(dswd_vpncloud_verif))]
             let speed = test_speed(algo, &duration);
+            #[cfg(dswd_vpncloud_verif)]
+            let speed = match crate::verif::speed_for(super::core::algorithm_name(algo)) {
+                Some(speed) => speed as f64,
+                None => test_speed(algo, &duration),
+            };
             algos.algorithm_speeds.push((algo, speed as f32));
             speeds.push((format!("{:?}", algo), speed as f32));
         }
@@ -140,6 +146,8 @@ impl Crypto {
             None => {
                 let rng = SystemRandom::new();
                 rng.fill(&mut bytes).unwrap();
+                #[cfg(dswd_vpncloud_verif)]
+                crate::verif::fill("common.generate_keypair", &mut bytes);
             }
             Some(password) => {
                 pbkdf2::derive(
@@ -307,6 +315,14 @@ impl<P: Payload> PeerCrypto<P> {
             InitResult::Continue => Ok(MessageResult::Reply),
             InitResult::Success { peer_payload, is_initiator } => {
                 self.core = self.get_init()?.take_core();
+                #[cfg(dswd_vpncloud_verif)]
+                crate::verif::probe(crate::verif::Event::HandshakeDone {
+                    initiator: is_initiator,
+                    algorithm: match self.core {
+                        Some(ref core) => super::core::algorithm_name(core.algorithm()),
+                        None => "PLAIN",
+                    },
+                });
                 if self.core.is_none() {
                     self.unencrypted = true;
                 }
@@ -425,6 +441,50 @@ impl<P: Payload> PeerCrypto<P> {
             }
         }
         Ok(MessageResult::None)
+    }
+}
+
+#[cfg(dswd_vpncloud_verif)]
+impl<P: Payload> PeerCrypto<P> {
+    pub fn verif_init_stage(&self) -> Option<u8> {
+        self.init.as_ref().map(|i| i.stage())
+    }
+
+    pub fn verif_core(&self) -> Option<&CryptoCore> {
+        self.core.as_ref()
+    }
+
+    pub fn verif_core_mut(&mut self) -> Option<&mut CryptoCore> {
+        self.core.as_mut()
+    }
+
+    pub fn verif_is_unencrypted(&self) -> bool {
+        self.unencrypted
+    }
+
+    pub fn verif_rotate_counter(&self) -> usize {
+        self.rotate_counter
+    }
+
+    pub fn verif_has_rotation(&self) -> bool {
+        self.rotation.is_some()
+    }
+}
+
+#[cfg(dswd_vpncloud_verif)]
+impl Crypto {
+    pub fn verif_algorithms(&self) -> &Algorithms {
+        &self.algorithms
+    }
+
+    pub fn verif_public_key(&self) -> Ed25519PublicKey {
+        let mut key = [0; ED25519_PUBLIC_KEY_LEN];
+        key.clone_from_slice(self.key_pair.public_key().as_ref());
+        key
+    }
+
+    pub fn verif_trusted_keys(&self) -> &[Ed25519PublicKey] {
+        &self.trusted_keys
     }
 }
 
